@@ -83,5 +83,14 @@ def _g24(case, v):
 rule("C07", "SingleAnnotatorWrapper", "fewer-annotators-than-requested", "some candidate sample has no available annotator")(_g24)
 
 
+# ---- SingleAnnotatorWrapper around a SubSamplingWrapper (C07, G48): the sub-sampling wrapper returns at most max_candidates
+# samples (documented), the annotator wrapper assumes one utility row per requested sample
+def _g48(case, v):
+    return isinstance(case, dict) and case.get("inner_is_subsampling_wrapper")
+
+
+rule("C07", "SingleAnnotatorWrapper", "exception:ValueError", "wrapped strategy is a SubSamplingWrapper (returns fewer samples than the annotator wrapper requests)")(_g48)
+
+
 # kind-specific rule first: RULES is scanned in order
 RULES.insert(0, RULES.pop(next(i for i, r in enumerate(RULES) if r[3] == "some candidate sample has no available annotator")))
